@@ -24,6 +24,7 @@ type GenOpts struct {
 	OnlyK      bool // only the K core types
 	Removes    bool // append Remove / RemoveKeyed (+ re-Add) steps at the tail
 	Rebuild    bool // build the collection once in the middle of the registration steps
+	Sibling    bool // with Rebuild: the intermediate provider is kept alive in half of the specs
 }
 
 var allLifetimes = []godi.Lifetime{godi.Singleton, godi.Scoped, godi.Transient}
@@ -305,6 +306,8 @@ func genOnce(rng *rand.Rand, o GenOpts) *Spec {
 	}
 	if o.Rebuild && len(s.Regs) >= 2 {
 		s.RebuildAfter = 1 + rng.Intn(len(s.Regs)-1)
+		// half of them: the provider of the intermediate Build lives on next to the observed one
+		s.KeepSibling = o.Sibling && rng.Intn(2) == 0
 	}
 	return s
 }
